@@ -162,3 +162,13 @@ B("c05-cleaner-move-anyway", "C05", "C05.R2", (R + "cleaner/env.py", "Cleaner", 
 B("c05-2048-spawn-always", "C05", "C05.R3", (L + "game_2048/env.py", "Game2048.step", "expr", "state.action_mask[action]", "True"))
 B("c05-sliding-unguarded", "C05", "C05.R3", (L + "sliding_tile_puzzle/env.py", "SlidingTilePuzzle._move_empty_tile", "expr", "lambda: (puzzle, empty_tile_position)", "lambda: (puzzle, new_empty_tile_position)"))
 T("c05-twin-snake-logical-or", "C05", (R + "snake/env.py", "Snake.step", "expr", "~is_valid | snake_completed | (step_count >= self.time_limit)", "jnp.logical_or(jnp.logical_or(snake_completed, jnp.logical_not(is_valid)), step_count >= self.time_limit)"))
+
+# ---------------------------------------------------------------- C01
+B("c01-snake-discrete-count", "C01", "C01.R3", (R + "snake/env.py", "Snake.observation_spec", "expr", "specs.BoundedArray((), jnp.int32, 0, self.time_limit, 'step_count')", "specs.DiscreteArray(self.time_limit, dtype=jnp.int32, name='step_count')"))
+B("c01-tsp-position-min", "C01", "C01.R4", (R + "tsp/env.py", "TSP.observation_spec", "expr", "specs.BoundedArray((), jnp.int32, -1, self.num_cities - 1, 'position')", "specs.DiscreteArray(self.num_cities, dtype=jnp.int32, name='position')"))
+B("c01-maze-missing-field", "C01", "C01.R1", (R + "maze/env.py", "Maze.observation_spec", "expr", "specs.Spec(Observation, 'ObservationSpec', agent_position=agent_position, target_position=agent_position, walls=walls, step_count=step_count, action_mask=action_mask)", "specs.Spec(Observation, 'ObservationSpec', agent_position=agent_position, target_position=agent_position, walls=walls, action_mask=action_mask)"))
+B("c01-connector-reward-shape", "C01", "C01.R2", (R + "connector/env.py", "Connector.reward_spec", "expr", "(self.num_agents,)", "()"))
+B("c01-pacman-bounds-swapped", "C01", "C01.R5", (R + "pac_man/env.py", "PacMan.observation_spec", "expr", "self.x_size - 1", "self.y_size - 1"))
+B("c01-tsp-coords-box", "C01", "C01.R6", (R + "tsp/generator.py", "UniformGenerator.__call__", "expr", "jax.random.uniform(sample_key, (self.num_cities, 2), minval=0, maxval=1)", "jax.random.uniform(sample_key, (self.num_cities, 2), minval=0, maxval=2)"))
+B("c01-cleaner-count-tight", "C01", "C01.R3", (R + "cleaner/env.py", "Cleaner.observation_spec", "expr", "specs.BoundedArray((), jnp.int32, 0, self.time_limit, 'step_count')", "specs.BoundedArray((), jnp.int32, 0, self.time_limit - 1, 'step_count')"))
+T("c01-twin-count-unbounded", "C01", (R + "cleaner/env.py", "Cleaner.observation_spec", "expr", "specs.BoundedArray((), jnp.int32, 0, self.time_limit, 'step_count')", "specs.Array((), jnp.int32, 'step_count')"))
